@@ -69,7 +69,14 @@ run against the patched tree (`VERIF_REPO=<worktree>`). `seeded/<id>/` holds
 `patch.diff`, the demonstration and `meta.json` (what it needs to manifest, what
 was run, which checks caught it). `<Cxx>-1/-2` are the first round, `<Cxx>-r2-1/-2`
 a second round that was told what the first round had done and asked for
-something different.
+something different, `<Cxx>-r3-1/-2` a third round. At the end of the round
+`tools/seeds_regress.sh` applied every stored change to the final tree and ran the
+final harness: all 119 are reported by the check of the property they were
+written for, or - where that check cannot see the change by construction - by the
+check named in the last column. Twelve patches had to be re-created on top of later
+repairs that touch the same lines (`patch.as-confirmed.diff` keeps the author's
+version; the suite still passes and the author's demonstration still fails with
+the re-created patch).
 
 Several changes were **missed at first** and led to stronger checks (the
 change is kept, the check was extended, then re-confirmed):
